@@ -48,6 +48,8 @@ fn main() {
 	let result = std::panic::catch_unwind(std::panic::AssertUnwindSafe(|| match (id.as_str(), &case) {
 		("C16", None) => checks::c16::run(ctx.clone()),
 		("C16", Some(c)) => checks::c16::replay(ctx.clone(), c),
+		("C18", None) => checks::c18::run(ctx.clone()),
+		("C18", Some(c)) => checks::c18::replay(ctx.clone(), c),
 		("C20", None) => checks::c20::run(ctx.clone()),
 		("C20", Some(c)) => checks::c20::replay(ctx.clone(), c),
 		("C01", None) => checks::c01::run(ctx.clone()),
